@@ -43,7 +43,7 @@ import numpy as np
 import threadpoolctl
 from hypothesis import strategies as st
 
-from ..engine import Clause, Violation, require
+from ..engine import HarnessError, Clause, Violation, require
 from ..strategies import seeds, universes
 from ..common import with_history  # noqa: E402
 
@@ -475,11 +475,14 @@ def check_ascent(case, ctx):
     rs = realisations(model, case)
     label_events(ev, ctx)
     if ev is not None:
-        require(len(ev.per_real) == case["n_real"]
-                and all(len(ev.per_real[r]) == len(rs[r]) for r in rs),
-                lambda: "hook log lists %r likelihood evaluations per realisation, train_info %r"
-                % ([len(x) for x in ev.per_real], [len(rs[r]) for r in sorted(rs)]),
-                key="hook-log")
+        if not (len(ev.per_real) == case["n_real"]
+                and all(len(ev.per_real[r]) == len(rs[r]) for r in rs)):
+            # the guarded instrumentation no longer lines up with train_info (e.g. the likelihood
+            # is evaluated once more per realisation): the harness cannot attribute guard events
+            # to iterations -- a harness problem (exit 2), not a verdict on the library
+            raise HarnessError(
+                "hook log lists %r likelihood evaluations per realisation, train_info %r"
+                % ([len(x) for x in ev.per_real], [len(rs[r]) for r in sorted(rs)]))
     strict = demanded = skipped = 0
     hidden = []
     for r, rows in sorted(rs.items()):
